@@ -6,7 +6,7 @@ generator-step granularity, (c) every engine on its own thread with a tiny switc
 (Engine/World.v, evaluated inside Coq) runs the schedule.  Per-engine observation sequences of (a), (b),
 (c) and of the model must all be equal.
 """
-import sys, threading, gc
+import sys, os, json, threading, subprocess
 from lib import terms
 from lib.terms import g_term, g_str, g_list, g_nat, g_bool, g_option
 
@@ -75,6 +75,8 @@ def g_op(case, op):
         return '(OClose %s)' % g_nat(op[1])
     if k == 'drain':
         return '(ODrain %s)' % g_nat(op[1])
+    if k == 'peek':
+        return '(OPeek %s)' % g_list([g_term(a) for a in op[1]])
     raise ValueError(op)
 
 def schedule_ops(case):
@@ -294,6 +296,8 @@ class EngineDriver:
                     else:
                         self.gens[q] = DEAD
                 return ['closed']
+            if k == 'peek':
+                return ['peek'] + self.read_answer([self.build(a) for a in op[1]])
             if k == 'drain':
                 q = op[1]
                 if q not in self.gens:
@@ -324,7 +328,8 @@ def _prepare(case):
     if '_compiled' not in case:
         case['_compiled'] = [compiled(s) for s in case['scripts']]
 
-def run_alone(case):
+def run_back_to_back(case):
+    """all engines in this process, one whole history after the other"""
     out = []
     for e in range(case['neng']):
         d = EngineDriver(case, e)
@@ -332,6 +337,31 @@ def run_alone(case):
             d.step(op)
         d.finish()
         out.append(d.obs)
+    return out
+
+_ALONE_SNIPPET = 'from props import c04; c04._alone_main()'
+
+def _alone_main():
+    """entry point of the fresh interpreter: one engine, its history, nothing else was ever imported or run"""
+    req = json.loads(sys.stdin.read())
+    case = req['case']
+    d = EngineDriver(case, req['eid'])
+    for op in case['hist'][req['eid']]:
+        d.step(op)
+    ok = d.finish()
+    sys.stdout.write(json.dumps({'obs': d.obs, 'unbound': ok}))
+
+def run_alone_fresh(case):
+    """every engine alone in a fresh interpreter (no state of any kind can come from another engine)"""
+    out = []
+    for e in range(case['neng']):
+        small = {'neng': case['neng'], 'scripts': [], '_compiled': case['_compiled'],
+                 'hist': [h if k == e else [] for k, h in enumerate(case['hist'])]}
+        r = subprocess.run([sys.executable, '-B', '-c', _ALONE_SNIPPET], input=json.dumps({'case': small, 'eid': e}),
+                           capture_output=True, text=True, timeout=CASE_TIMEOUT, env=os.environ)
+        if r.returncode != 0:
+            raise RuntimeError('fresh interpreter failed: ' + r.stderr[-400:])
+        out.append(json.loads(r.stdout)['obs'])
     return out
 
 def run_interleaved(case):
@@ -376,10 +406,11 @@ def run_threads(case):
 def impl(case):
     case = dict(case)
     _prepare(case)
-    alone = run_alone(case)
+    alone = run_alone_fresh(case)
     inter, shared, unbound = run_interleaved(case)
     thr, errs = run_threads(case)
-    return {'alone': alone, 'interleaved': inter, 'threads': thr, 'thread_errors': errs,
+    b2b = run_back_to_back(case)
+    return {'alone': alone, 'back_to_back': b2b, 'interleaved': inter, 'threads': thr, 'thread_errors': errs,
             'shared_atom_objects': shared, 'all_unbound_at_end': unbound}
 
 # ------------------------------------------------------------------ comparison
@@ -408,8 +439,8 @@ def canon_model_trace(case, mo):
             if raw not in ids:
                 ids[raw] = len(ids)
             per[e].append(['atom', ids[raw]])
-        elif tag == 'ans':
-            per[e].append(['ans'] + canon_answer(o[1:]))
+        elif tag in ('ans', 'peek'):
+            per[e].append([tag] + canon_answer(o[1:]))
         elif tag == 'all':
             per[e].append(['all', [canon_answer(a) for a in o[1]], o[2]])
         else:
@@ -421,8 +452,8 @@ def canon_impl(seqs):
     for s in seqs:
         r = []
         for o in s:
-            if o[0] == 'ans':
-                r.append(['ans'] + canon_answer(o[1:]))
+            if o[0] in ('ans', 'peek'):
+                r.append([o[0]] + canon_answer(o[1:]))
             elif o[0] == 'all':
                 r.append(['all', [canon_answer(a) for a in o[1]], o[2]])
             else:
@@ -466,14 +497,17 @@ def oracle(case, io):
     if not isinstance(io, dict):
         return None
     a, b, c = canon_impl(io['alone']), canon_impl(io['interleaved']), canon_impl(io['threads'])
+    bb = canon_impl(io['back_to_back'])
     if any(o and o[0] == 'raised' and o[1] == 'RecursionError' for s in a for o in s):
         return None            # cyclic term: unspecified
     if a != b:
-        return 'an engine observes something else when the engines are interleaved than when it runs alone: ' + _first_diff(b, a)
+        return 'an engine observes something else when the engines are interleaved than when it runs alone in a fresh interpreter: ' + _first_diff(b, a)
+    if a != bb:
+        return 'an engine observes something else when the engines run back to back in one process than when it runs alone in a fresh interpreter: ' + _first_diff(bb, a)
     if io['thread_errors']:
         return 'thread run raised: %s' % io['thread_errors'][:2]
     if a != c:
-        return 'an engine observes something else when the engines run on threads than when it runs alone: ' + _first_diff(c, a)
+        return 'an engine observes something else when the engines run on threads than when it runs alone in a fresh interpreter: ' + _first_diff(c, a)
     if io['shared_atom_objects']:
         return 'two engine instances returned the same Atom object'
     if not io['all_unbound_at_end']:
@@ -596,8 +630,13 @@ def gen_history(rng, case, eid, nops, base_facts):
             name, args, vs = query_goal()
             ops.append(['start', q, name, args])
             live[q] = vs
-        elif r < 0.92:
+        elif r < 0.88:
             ops.append(['next', rng.choice(list(live))])
+        elif r < 0.92:
+            # look at variables between two steps: those of the suspended queries and a few others
+            vs = [v for q in live for v in live[q]] + fresh(1)
+            k = rng.choice([1, 2, 3])
+            ops.append(['peek', [rand_open(rng, vs, 1, 0.8) for _ in range(k)]])
         elif r < 0.96:
             q = rng.choice(list(live))
             ops.append(['close', q, rng.randrange(2)])
